@@ -204,6 +204,9 @@ def search(ctx):
             try:
                 nx, ny = int(rng.integers(1, 17)), int(rng.integers(1, 17))
                 sp = (float(rng.uniform(0.05, 0.5)), float(rng.uniform(0.05, 0.5))) if rng.random() < 0.5 else float(rng.uniform(0.05, 0.5))
+                # any unit of length: micrometres, metres (1e-6), nanometres (1e3), ... -- absolute tolerances and fixed decimals hide there
+                unit = [1.0, 1e-6, 1e3, 1e-6, 1e-3, 1e-9][i % 6]
+                sp = tuple(v * unit for v in sp) if isinstance(sp, tuple) else sp * unit
                 nch = int(rng.choice([1, 1, 2, 3]))
                 labels = ['red', 'green', 'blue'][:nch]
                 dtype = [float, int, complex][rng.integers(0, 3)] if nch == 1 else float
@@ -266,7 +269,7 @@ def search(ctx):
                     dev = float(np.abs(back.values.squeeze() - vals).max())
                     if not (dev <= rng_ * 0.500001 / 255 * (1 + 1e-9) + 1e-12 * abs(vals).max()):
                         ctx.violation("C16:tiff-quantisation", "TIFF round trip off by %.4g > stated quantisation %.4g" % (dev, rng_ * 0.500001 / 255), dict(info, kind="tiff"))
-                    if not np.allclose(get_spacing(back), get_spacing(im)) or not all(_attrs_equal(back.attrs.get(k), im.attrs.get(k)) for k in ('medium_index', 'illum_wavelen', 'noise_sd')):
+                    if not np.allclose(get_spacing(back), get_spacing(im), rtol=1e-12, atol=0) or not all(_attrs_equal(back.attrs.get(k), im.attrs.get(k)) for k in ('medium_index', 'illum_wavelen', 'noise_sd')):
                         ctx.violation("C16:tiff-metadata", "TIFF round trip lost spacing or metadata", dict(info, kind="tiff"))
                     # deeper files: the stated quantisation is one level of 2^15 - 1 (16 bit, signed) or 2^31 - 1 (32 bit)
                     if i % 2 == 0:
@@ -300,7 +303,7 @@ def search(ctx):
                         pilimage.fromarray(a).save(pth)
                         paths.append(pth)
                     ctx.tried("raster", (nx, ny, colour, K, i))
-                    spx = (0.11, 0.23)
+                    spx = (0.11 * unit, 0.23 * unit)
                     ch = [int(c) for c in rng.permutation(3)[:int(rng.integers(1, 4))]] if colour else None
                     if colour:
                         # every way of asking for the channels: all three in each non-identity order, with a repeat, pairs in both orders
@@ -314,7 +317,7 @@ def search(ctx):
                                 break
                     li = load_image(paths[0], spacing=spx, channel=ch)
                     want = arrs[0][:, :, ch].squeeze() if colour else arrs[0]
-                    okc = np.allclose(li.x.values, np.arange(nx) * spx[0], rtol=0, atol=1e-15) and np.allclose(li.y.values, np.arange(ny) * spx[1], rtol=0, atol=1e-15)
+                    okc = np.allclose(li.x.values, np.arange(nx) * spx[0], rtol=1e-14, atol=0) and np.allclose(li.y.values, np.arange(ny) * spx[1], rtol=1e-14, atol=0)
                     got = li.values.squeeze()
                     if not okc or got.shape != np.squeeze(want).shape or not np.array_equal(got, np.squeeze(want).astype(float)):
                         ctx.violation("C16:load-image", "load_image misplaces pixels/channels or coordinates", dict(info, kind="raster", channel=ch))
@@ -343,7 +346,7 @@ def search(ctx):
                         ctx.tried("average-roi", (nx, ny, a0, a1, c0, c1, i))
                         avr = load_average(paths, refimg=roi)
                         want_roi = stack.mean(0)[a0:a1, c0:c1]
-                        okc = np.allclose(avr.x.values, roi.x.values, atol=1e-12) and np.allclose(avr.y.values, roi.y.values, atol=1e-12)
+                        okc = np.allclose(avr.x.values, roi.x.values, rtol=1e-12, atol=0) and np.allclose(avr.y.values, roi.y.values, rtol=1e-12, atol=0)
                         if not okc or avr.values.squeeze().shape != want_roi.squeeze().shape or not (np.abs(avr.values.squeeze() - want_roi.squeeze()).max() <= 1e-10):
                             ctx.violation("C16:average-roi", "load_average onto the region [%d:%d, %d:%d] of the frame is not the pixelwise mean at the pixels its coordinates name" % (a0, a1, c0, c1),
                                           dict(info, kind="average-roi", region=[a0, a1, c0, c1]))
